@@ -100,18 +100,23 @@ STRICT = {
 }
 
 
-def _eval_sites(lib, own, b):
-    """calls in b that evaluate a child instruction: Exec::exec, Slicing::exec_index, or a helper of b that does"""
-    out = []
+def _always(lib, own, b, depth=0):
+    """number of child evaluations that happen on every successful path of b; an operand evaluated inside a helper that
+    belongs to b alone counts with what that helper always evaluates"""
+    succ = success_blocks(b) or b.return_blocks()
+    total = 0
     for c in b.calls:
+        weight = 0
         if c.path == EXEC or c.callee.endswith("Slicing::exec_index"):
-            out.append(c)
-        else:
+            weight = 1
+        elif depth < 3:
             hb = lib.body(c.callee)
-            if hb is not None and hb is not b and own.of(hb.id) == frozenset({base(b.id)}) and \
-                    any(x.path == EXEC or x.callee.endswith("Slicing::exec_index") for x in hb.calls):
-                out.append(c)
-    return out
+            if hb is not None and hb is not b and own.of(hb.id) == frozenset({base(b.id)}) | (own.of(b.id) - {base(b.id)}) or \
+                    (hb is not None and hb is not b and own.of(hb.id) <= own.of(b.id) and hb.id not in own.known):
+                weight = _always(lib, own, hb, depth + 1)
+        if weight and c.bb not in b.reachable_after(c.bb) and all(c.bb in b.dom[s2] for s2 in succ):
+            total += weight
+    return total
 
 
 def run_strict(ctx):
@@ -123,15 +128,13 @@ def run_strict(ctx):
         b = lib.body(fid)
         if not res.anchor(b is not None, fid):
             continue
-        succ = success_blocks(b) or b.return_blocks()
-        sites = _eval_sites(lib, own, b)
-        always = [c for c in sites if c.bb not in b.reachable_after(c.bb) and all(c.bb in b.dom[s] for s in succ)]
+        got = _always(lib, own, b)
         key = "strict:%s" % fid
-        if len(always) >= want:
-            res.ok(key, b.where(), "%d operand evaluation(s) on every successful path" % len(always))
+        if got >= want:
+            res.ok(key, b.where(), "%d operand evaluation(s) on every successful path" % got)
         else:
             res.bad(key, "%s can produce a result after evaluating only %d of its %d operands on some path: the effects and errors of the "
-                         "skipped operand(s) disappear (operands are evaluated left to right, each exactly once)" % (fid, len(always), want), b.where())
+                         "skipped operand(s) disappear (operands are evaluated left to right, each exactly once)" % (fid, got, want), b.where())
     return res
 
 
